@@ -399,6 +399,12 @@ func (r *NopReader) Read(p []byte) (int, error) {
 }
 func (*NopReader) Close() error { return nil }
 
+// PreemptedRunLast (engine only, with SchedYieldOnly and Preemptions): a
+// goroutine that was preempted is not picked again by the deterministic
+// run-to-block policy while another goroutine can run - the preemption gives the
+// others time to finish what they are doing, not just one step.
+func PreemptedRunLast(on bool) {}
+
 // SpinLimit (engine only): a goroutine other than the harness' main one that
 // passes n times through one basic block without handing over to another
 // goroutine is taken for a livelock and parked for good; the harness'
